@@ -145,14 +145,52 @@ def tokens_of_source(src):
 
 
 def nesting_bombs():
+    """expressions that are deep or long in one direction (parentheses, list literals, negations, left-nested sums and
+    differences, concatenations, property and index chains, nested calls), each in every place of a program where an
+    expression can stand -- the analyzer does different work on an expression depending on where it stands (typed
+    positions, property operands, definitions)"""
+    def shapes(d):
+        return {
+            "parens": "(" * d + "1" + ")" * d,
+            "lists": "[" * d + "1" + "]" * d,
+            "negations": "!" * d + "1",
+            "sum": "+".join(["1"] * d),
+            "difference": "-".join(["n"] + ["1"] * d),
+            "mixed_sum": "+".join((["n", "1"] * d)[:d]),
+            "concat": "concat(" * min(d, 24) + '"a"' + ', "b")' * min(d, 24),
+            "property_chain": "n" + ".a" * d,
+            "index_chain": "n" + "[0]" * d,
+            "calls": "Ada(" * d + "1" + ")" * d,
+            "sum_then_property": "(" + "+".join(["n"] * d) + ").a",
+        }
+    slots = {
+        "output_amount": "tx t(n: Int) { output { to: P, amount: %s, } }",
+        "output_datum": "tx t(n: Int) { output { to: P, amount: Ada(1), datum: %s, } }",
+        "input_min": "tx t(n: Int) { input i { from: P, min_amount: %s, } }",
+        "local": "tx t(n: Int) { locals { l: %s, } output { to: P, amount: l, } }",
+        "since_slot": "tx t(n: Int) { validity { since_slot: %s, } }",
+        "metadata_key": "tx t(n: Int) { metadata { %s: 1, } }",
+        "metadata_value": "tx t(n: Int) { metadata { 1: %s, } }",
+        "mint": "tx t(n: Int) { mint { amount: %s, redeemer: %s, } }",
+        "signer": "tx t(n: Int) { signers { %s, } }",
+        "donation_coin": "tx t(n: Int) { cardano::treasury_donation { coin: %s, } }",
+        "withdrawal_amount": "tx t(n: Int) { cardano::withdrawal { from: P, amount: %s, redeemer: (), } }",
+        "witness_version": "tx t(n: Int) { cardano::plutus_witness { version: %s, script: 0xabcd, } }",
+        "asset_policy": "asset X = %s.\"a\"; tx t(n: Int) { output { to: P, amount: X(1), } }",
+        "asset_name": "asset X = 0xabcd.%s; tx t(n: Int) { output { to: P, amount: X(1), } }",
+        "policy_hash": "policy Q { hash: %s, } tx t(n: Int) { output { to: Q, amount: Ada(1), } }",
+        "struct_field": "tx t(n: Int) { output { to: P, amount: Ada(1), datum: R { f: %s, }, } }",
+        "list_item": "tx t(n: Int) { output { to: P, amount: Ada(1), datum: [%s, 1], } }",
+        "index": "tx t(n: Int) { output { to: P, amount: Ada(1), datum: [1, 2][%s], } }",
+    }
     out = []
+    head = "party P; type R { f: Int, } "
     for depth in (8, 32, 64):
-        out.append("tx t() { output { amount: " + "(" * depth + "1" + ")" * depth + ", } }")
-        out.append("tx t() { output { datum: " + "[" * depth + "1" + "]" * depth + ", } }")
-        out.append("tx t() { output { amount: " + "!" * depth + "1, } }")
-        out.append("type A = " + "List<" * depth + "Int" + ">" * depth + "; tx t() {}")
-        out.append("tx t() { output { amount: " + "+".join(["1"] * depth) + ", } }")
-        out.append("tx t() { locals { " + " ".join("l%d: l%d," % (i + 1, i) for i in range(depth)) + " } }")
+        for sname, shape in shapes(depth).items():
+            for slot, tpl in slots.items():
+                out.append(head + tpl.replace("%s", shape))
+        out.append(head + "type A = " + "List<" * depth + "Int" + ">" * depth + "; tx t() {}")
+        out.append(head + "tx t() { locals { " + " ".join("l%d: l%d," % (i + 1, i) for i in range(depth)) + " } }")
     return out
 
 
